@@ -642,6 +642,8 @@ def mll_oracle(r):
         prev = d
     lk = [x for x in parse_leaks(r["report"]) if x["kind"] == "Direct" and x["in_library"]]
     for x in lk:
+        if os.environ.get("C17_LEAK_LOG"):
+            open(os.environ["C17_LEAK_LOG"], "a").write(json.dumps({"leak": x, "shape": sc.get("shape"), "desc": sc.get("file_desc")}) + "\n")
         if x["alloc_fn"] not in seen:
             seen.add(x["alloc_fn"])
             bad.append(("leak:" + x["alloc_fn"], {"problem": "LeakSanitizer: unreachable block allocated by the library", "leak": x}))
